@@ -49,6 +49,17 @@ namespace GeographicLib {
       if (!InRange(lon, -180, 180)) throw GeographicErr("bad longitude");
       return lon;
     }
+    // NAN2: an ordered comparison sends a NaN latitude into the arm that stores constants (the pole), where the
+    // other arm computes from it; written with != the NaN would take the computing arm
+    static void NanToPole(real lat, real& xi, real& eta) {
+      if (lat < 90) {
+        xi = std::atan(lat);
+        eta = std::sinh(lat);
+      } else {
+        xi = Math::pi()/2;
+        eta = 0;
+      }
+    }
     // W1: an output written on one returning path only
     static void HalfWritten(int code, int& zone, bool& northp) {
       if (code > 0) { zone = code; northp = true; }
